@@ -401,14 +401,16 @@ class Transaction:
         metadata commit that makes it reachable. Marker write failures
         propagate - a file is never written unprotected (fail closed).
         """
-        # One marker per (transaction, file): the name carries a random suffix.
-        # Named by basename alone, files with the same basename in different
-        # directories ('data/p=1/part-0.parquet', 'data/p=2/part-0.parquet')
-        # shared ONE marker - the second file was never protected, and a
-        # transaction finishing removed the marker another one relied on. The
-        # collector takes the protected path from the payload, not the name.
-        marker_name = file_path.rsplit("/", 1)[-1]
-        marker_path = f"{_INFLIGHT_PATH}/{marker_name}.{uuid.uuid4().hex[:8]}.inflight"
+        # One marker per (transaction, file), under a random fixed-length name.
+        # Named after the file's basename, files with the same basename in
+        # different directories ('data/p=1/part-0.parquet',
+        # 'data/p=2/part-0.parquet') shared ONE marker - the second file was
+        # never protected, and a transaction finishing removed the marker
+        # another one relied on; a basename starting with '.tmp.' made the
+        # marker look like a temp file, and a long basename made the marker
+        # name too long for the file system. The collector takes the protected
+        # path from the payload, never from the name.
+        marker_path = f"{_INFLIGHT_PATH}/{uuid.uuid4().hex}.inflight"
         marker_payload = json.dumps({"file_path": file_path.lstrip("/")}).encode("utf-8")
         self.file_manager.storage.write_file(marker_path, marker_payload)
         self._inflight_markers.append(marker_path)
